@@ -20,6 +20,8 @@ structure FramePlan where
   coded : Bool := false
   /-- entropy coding mode of the sample and tree streams (see `SampleCoder`) -/
   ent : Nat := 0
+  /-- `some seed`: write a permuted TOC -/
+  tocSeed : Option Nat := none
   deriving Inhabited
 
 structure FrameOut where
@@ -179,6 +181,6 @@ def encodeFrame (img : ImgHdr) (p : FramePlan) : Option FrameOut :=
                         | some (chs, _) => (chs.getD before.length default).get (x % gw) (y % gh)
                         | none => 0
                     some (inverseAll sb img.bits p.wp ts (gch ++ rebuilt))
-              some { bytes := writeFrame img f sections, expected, modelDecoded, paths, numGroups, entUsed := plan.mode }
+              some { bytes := writeFrame img f sections p.tocSeed, expected, modelDecoded, paths, numGroups, entUsed := plan.mode }
 
 end Jxl.Enc
